@@ -22,4 +22,4 @@ mod proc_gen;
 // verification hooks (glass_easel_verif): compiled only under the cfg guard
 #[cfg(any(kani, glass_easel_verif))]
 #[path = "/verif/hooks/tc_root.rs"]
-mod verif;
+pub mod verif;
